@@ -66,7 +66,7 @@ def solve(device, p=0, s0=None, solver_options={}, prox=None, cb=None):
   args = {
     'fun': lambda s, p=p: device.cost(s, p),
     'x0':  s0,
-    'jac': lambda s, p=p: device.deriv(s, p),
+    'jac': lambda s, p=p: np.array(device.deriv(s, p)).flatten(),
     'method': 'SLSQP',
     'bounds': device.bounds,
     'constraints': device.constraints,
